@@ -48,24 +48,50 @@ def model_checks(chk, tier):
 # --------------------------------------------------------------------------------------------
 # R: naming / labels / units, sequential
 # --------------------------------------------------------------------------------------------
+# concretisation of BridgeNaming's value symbols, as (value in units, unit) like the trace's classes
+SYM_CLASSES = {"v100": (100, 1), "v1e6": (1_000_000, 1), "v2e31": (2_147_483_648 // 1024, 1024), "vmax": (4_294_967_295 // 1024, 1024)}
+
+
+def near(m, c):
+    return m >= 0 and abs(m - c) <= c // 16
+
+
+def bucket_class(o, classes=SYM_CLASSES):
+    """class of a reported bucket [lo, hi, lok, hik, occ] (mean within 1/16 of the class value), else None"""
+    lo, hi, lok, hik, _ = o
+    for name, (c, u) in classes.items():
+        if (near(lo, c) and near(hi, c)) if u == 1 else (near(lok, c) and near(hik, c)):
+            return name
+    return None
+
+
 def canon_expected(it):
-    return (it["kind"], it["name"], tuple(sorted(tuple(p) for p in it["dims"])), it["unit"], it["v"])
+    v = it["v"]
+    if it["kind"] == "h":
+        v = tuple(sorted((c, n) for c, n in v))
+    return (it["kind"], it["name"], tuple(sorted(tuple(p) for p in it["dims"])), it["unit"], v)
 
 
 def canon_real(it):
     v = it["v"]
     ok = True
     if it["kind"] == "h":
-        v = sum(o[1] for o in it["obs"])
-        for total, occ in it["obs"]:
-            # BridgeNaming records samples of value 100; the reported bucket value must be within 1/16
-            if occ and (total < 0 or total % occ or abs(total // occ - 100) * 16 > 100):
-                ok = False
+        per = {}
+        for o in it["obs"]:
+            if o[4] == 0:
+                continue
+            c = bucket_class(o)
+            if c is None:
+                ok = False     # the bucket's mean is not within 1/16 of any recorded value
+                c = f"?mean~{o[0] if o[0] >= 0 else str(o[2]) + '*1024'}"
+            per[c] = per.get(c, 0) + o[4]
+        v = tuple(sorted(per.items()))
     return (it["kind"], it["name"], tuple(sorted(tuple(p) for p in it["dims"])), it["unit"], v), ok
 
 
-def run_naming(chk, tier, only=None):
-    cfgs = ["MC_naming_quick.cfg", "MC_naming_quick_z.cfg"] if tier == "quick" else ["MC_naming.cfg", "MC_naming_z.cfg"]
+def run_naming(chk, tier, only=None, cfgs=None, release=False, tag="naming"):
+    cfgs = cfgs or (["MC_naming_quick.cfg", "MC_naming_quick_z.cfg", "MC_naming_bighist.cfg"] if tier == "quick"
+                    else ["MC_naming.cfg", "MC_naming_z.cfg", "MC_naming_bighist.cfg"])
     beh = []
     if only is not None:
         beh = [only]
@@ -81,15 +107,20 @@ def run_naming(chk, tier, only=None):
                 raise vlib.ToolError(f"BridgeNaming/{cfg} produced no behaviours")
             log(f"[tlc] BridgeNaming/{cfg}: {len(got)} behaviours in {r.wall:.1f}s")
             beh += got
-    bp = os.path.join(chk.dir, "naming-beh.ndjson")
-    op = os.path.join(chk.dir, "naming-out.ndjson")
+    bp = os.path.join(chk.dir, f"{tag}-beh.ndjson")
+    op = os.path.join(chk.dir, f"{tag}-out.ndjson")
     vlib.write_ndjson(bp, beh)
-    vlib.run_bin("mb", ["seq", "--behaviours", bp, "--out", op], timeout=1800)
+    vlib.run_bin("mb", ["seq", "--behaviours", bp, "--out", op], timeout=1800, release=release)
     outs = vlib.read_ndjson(op)
     assert len(outs) == len(beh)
     bad = 0
     after_desc = 0
+    crossing = 0
     for b, o in zip(beh, outs):
+        # statistics: a readout window in which value x count of one histogram class reaches 2^32
+        if any(st[0] == "Touch" and len(st) > 4 and st[4] * {"v100": 100, "v1e6": 10**6, "v2e31": 2**31}.get(st[3], 2**32 - 1) >= 2**32
+               for st in b["steps"]):
+            crossing += 1
         exp = [st[1] for st in b["steps"] if st[0] == "Readout"]
         viol = None
         if o.get("panic"):
@@ -108,7 +139,8 @@ def run_naming(chk, tier, only=None):
                 if es != gs or not oks:
                     missing = [x for x in es if x not in gs]
                     extra = [x for x in gs if x not in es]
-                    viol = (f"readout {n + 1}: the specification expects items (kind, name, dimensions, unit, value) "
+                    viol = (f"readout {n + 1}: the specification expects items (kind, name, dimensions, unit, value; histograms: "
+                            f"samples per recorded value, each bucket's total/occurrences within 1/16 of it) "
                             f"{missing} but the entry wrote {extra}" if (missing or extra) else
                             f"readout {n + 1}: histogram value outside its bucket error: {g}")
                     break
@@ -123,13 +155,17 @@ def run_naming(chk, tier, only=None):
         chk.evaluations += 1
         if viol:
             bad += 1
-            ops = " ".join(f"{st[0]}({','.join(str(x) for x in st[1:3])})" if st[0] != "Readout" else "Readout" for st in b["steps"])
-            chk.violation(f"naming/units: after {ops} (emit_zero={b['emit_zero']}): {viol}",
-                          {"kind": "naming", "behaviour": b, "observed": o}, key="C20:naming")
+            ops = " ".join(f"{st[0]}({','.join(str(x) for x in (st[1:3] if len(st) < 5 else [st[1], st[3], st[4]]))})"
+                           if st[0] != "Readout" else "Readout" for st in b["steps"])
+            chk.violation(f"naming/units/values{' (release build)' if release else ''}: after {ops} (emit_zero={b['emit_zero']}): {viol}",
+                          {"kind": "naming", "behaviour": b, "observed": o, "release": release}, key="C20:naming")
     chk.traces += len(beh) - bad
-    chk.extra["naming_behaviours"] = len(beh)
-    chk.extra["naming_behaviours_describe_after_use"] = after_desc
-    chk.nontrivial.update(f"naming:{i}" for i in range(len(beh)))
+    chk.extra[tag + "_behaviours"] = len(beh)
+    chk.extra[tag + "_behaviours_describe_after_use"] = after_desc
+    chk.extra[tag + "_behaviours_value_x_count_over_2^32"] = crossing
+    if only is None and "MC_naming_bighist.cfg" in cfgs and not crossing:
+        raise vlib.ToolError("no history records enough large histogram samples for value x count to reach 2^32 (vacuous)")
+    chk.nontrivial.update(f"{tag}:{i}" for i in range(len(beh)))
     if beh:
         chk.sample({"naming_behaviour": beh[len(beh) // 3]})
     return bad
@@ -221,10 +257,10 @@ def run_reporter(chk, tier, only=None):
                     elif it["kind"] == "g":
                         lastG[k] = it["v"]
                     else:
-                        for total, occ in it["obs"]:
-                            if occ and (total < 0 or total % occ or abs(total // occ - 100) * 16 > 100):
-                                viol = f"step {i}: histogram value {total}/{occ} is not within 1/16 of the recorded 100"
-                            cumH[k] = cumH.get(k, 0) + occ
+                        for ob in it["obs"]:
+                            if ob[4] and bucket_class(ob) != "v100":
+                                viol = f"step {i}: histogram bucket with mean {ob[0]}..{ob[1]} is not within 1/16 of the recorded 100"
+                            cumH[k] = cumH.get(k, 0) + ob[4]
                 missing = [k for k in exp["listed"] if k not in listed]
                 if missing and not viol:
                     viol = f"step {i} ({s[0]}): a published readout does not list {missing} (emit_zero={b['emit_zero']})"
@@ -415,7 +451,8 @@ def run(prop, tier):
     chk.assumptions = [
         "the harness's event log is totally ordered by one mutex: 'A's end logged before B's start' implies A happened before B",
         "updates are logged per batch (start, n updates, end); a batch counts as started/ended as a whole (sound, coarser)",
-        "histogram values are taken from classes that are >1/16 apart, so a reported bucket value identifies the recorded value",
+        "histogram values are taken from 9 classes (0 .. u32::MAX, larger values capped) that are >1/16 apart, so a reported "
+        "bucket identifies the recorded value; values from 2^31 on are compared in units of 1024 (TLC has 32-bit integers)",
         "gauge values are unique per call; a name is used for one metric kind only",
         "a lost update that needs a window never hit in the recorded runs is not seen (contention: 60% of the updates go to one key)",
         "TLC results for MetricsBridge.tla are exhaustive only within the constants of the MC_mb*.cfg files",
@@ -425,6 +462,11 @@ def run(prop, tier):
         model_checks(chk, tier)
         reporter_models(chk)
     run_naming(chk, tier)
+    if tier == "thorough":
+        # the same large-value histories against a release build (no overflow checks: a wrapped total is
+        # silent there, a panic in the dev build)
+        vlib.cargo_build(["mb"], release=True)
+        run_naming(chk, tier, cfgs=["MC_naming_bighist.cfg"], release=True, tag="naming_release")
     run_reporter(chk, tier)
     nruns = 48 if tier == "quick" else 600
     run_recorded(chk, nruns, chk.seed)
@@ -441,7 +483,9 @@ def replay(prop, path):
     vlib.cargo_build(["mb"])
     chk = vlib.Check(prop + "-replay", "quick")
     if rp["kind"] == "naming":
-        bad = run_naming(chk, "quick", only=rp["behaviour"])
+        if rp.get("release"):
+            vlib.cargo_build(["mb"], release=True)
+        bad = run_naming(chk, "quick", only=rp["behaviour"], release=bool(rp.get("release")))
         log("replay:", "still violated" if bad else "no longer violated")
         return 1 if bad else 0
     if rp["kind"] == "reporter":
